@@ -609,17 +609,25 @@ func Run(c *hx.Ctx) {
 		"all but the first, odd/even alternation or a random subset; page numbers in 13 styles (3, Page 3, 3 / 10, - 3 -, Page 3 of 10, 3/10, p. 3, roman, …) " +
 		"in header or footer; body lines repeating across pages (incl. the header's own text placed in the body band just below the margin), purely numeric body lines; " +
 		"unique marginal texts; double-struck titles; positions jittered within/beyond tolerance; boundary distances 71/72/73; inverted (top-down, oversized) coordinates; " +
-		"character-level pages; empty pages. Each document goes through layout.NewHeaderFooterDetector().Detect(pages).FilterFragments(...) and, rendered by an independent " +
+		"character-level pages; empty pages. Each document goes through layout.NewHeaderFooterDetector().Detect(pages).FilterFragments(...) once on fresh copies and then, as a caller that keeps its own slices " +
+		"(all pages in one backing array, deep copy taken first), through a call sequence (same page twice, Detect-Filter-Detect-Filter, pages in other orders, one shared scratch buffer, " +
+		"per-page AnalyzeWithHeaderFooterFiltering, random mixes) after each step of which the input must equal the copy and every result the single-call result; and, rendered by an independent " +
 		"PDF writer, through tabula.Open(f).Pages(S).ExcludeHeaders()/ExcludeFooters()/ExcludeHeadersAndFooters().Lines()/Text(). Non-trivial = at least one fragment was removed."
-	for _, d := range []Doc{witnessB20(), witnessEmbeddedNumber(), witnessCharLevel()} {
+	for wi, d := range []Doc{witnessB20(), witnessEmbeddedNumber(), witnessCharLevel()} {
 		directCase(c, d, true)
+		script, kind := genScript(c.Rng.Fork(uint64(3_000_000+wi)), len(d.Pages))
+		seqCase(c, d, script, kind, true)
 	}
 	pdfCase(c, witnessB20(), []int{1}, "hf", nil, true)
 	microOps(c)
 	nd := c.N(1500, 15000)
 	for i := 0; i < nd; i++ {
 		r := c.Rng.Fork(uint64(i))
-		directCase(c, genDoc(r, genOpts{}), true)
+		d := genDoc(r, genOpts{})
+		directCase(c, d, true)
+		// the same document again, as a caller who keeps using its own slices across several calls
+		script, kind := genScript(r.Fork(99), len(d.Pages))
+		seqCase(c, d, script, kind, true)
 	}
 	np := c.N(250, 2500)
 	for i := 0; i < np; i++ {
@@ -649,6 +657,8 @@ func Replay(c *hx.Ctx, kase map[string]interface{}) {
 	switch ci.Mode {
 	case "pdf":
 		pdfCase(c, ci.Doc, ci.Subset, ci.Excl, nil, false)
+	case "seq":
+		seqCase(c, ci.Doc, ci.Script, "replay", false)
 	case "docx":
 		var k struct {
 			P        string
